@@ -59,6 +59,21 @@ parser { "a"; h(); m = 1; /[bc]/; }"""),
 parser { "a"; e = aa; "b"; e = Bb; Hook_1(); case { "c" -> { if e == c_d { finish ok; } else { Out_1 = 1; yield more; } } "d" -> { e = c_d; finish Fail; } } "z"; }"""),
     ("feat-signed", [], """out int{signed, size 1} a = -1; out int{signed, size 2} b = 0; out int{size 8} c = 0; out int{unsigned, size 4} d = 0;
 parser { foreach { /./ ; } do { a = [a - 100]; b = [b + a * 2]; d = [d - 1]; c = [c * 3 + d]; } }"""),
+    # a loop left by a conditional break, directly followed by an append that can overflow (handler consumes)
+    ("feat-break-append", [], """out str[3] s; out int{unsigned, size 1} n = 0; hook h;
+parser { loop { try { loop { /[ab]/; n = [n + 1]; if n == 2 { break; } } s += [65]; n = 0; } catch (outofspace) { h(); delete s; "x"; } } }"""),
+    # any-byte matches whose byte is observed ($last, hook argument) - the byte must be reloaded although the state ignores it
+    ("feat-anybyte", [], """out int m = 0; out str[4] t; hook h;
+parser { loop { "a"; /./; m = [$last]; h(); /[^b]/; h(); t += /./; ";"; delete t; } }"""),
+    # foreach over yielding clauses with a char-append each-action that can overflow into a consuming handler
+    ("feat-yield-foreach-append", ["-fyield-support"], """yieldcode LP, RP; out str[3] s; hook h;
+parser { loop { try { foreach { loop { case { "(" -> { yield LP; } ")" -> { yield RP; } /[ab]/ -> {} ";" -> { break; } } } } do { s += [$last]; } h(); delete s; } catch (outofspace) { h(); delete s; /[xy]/; } } }"""),
+    # action-only conditional finish followed by more statements
+    ("feat-cond-finish", [], """out int{unsigned, size 1} n = 0; finishcode F; hook h;
+parser { loop { /[ab]/; n = [n + 1]; if n == 3 { finish F; } h(); "c"; if n == 2 && $last == 'c' { finish; } } }"""),
+    # conditional append at the top of a loop body inside try/catch (outofspace)
+    ("feat-cond-append", [], """out str[3] s; out int{unsigned, size 1} n = 0; hook h;
+parser { "s"; loop { try { if n == 0 { s += [65]; } else { s += [66]; n = 0; } /[ab]/; if $last == 'b' { n = 1; } } catch (outofspace) { h(); "!"; delete s; } } }"""),
 ]
 
 
